@@ -186,17 +186,41 @@ def tauSucc (s : St) : List St :=
     (match step s (.consClosed i) with | some t => [t] | none => [])
   r ++ cs
 
-def closure : Nat → List St → List St → List St
-  | 0, acc, _ => acc
-  | _, acc, [] => acc
-  | n + 1, acc, s :: todo =>
-    let new := (tauSucc s).filter fun t => !(acc.contains t)
+def RunPc.code : RunPc → Nat
+  | .idle => 0 | .called => 1 | .waitFile => 2 | .uWant _ => 3 | .uPend _ => 4 | .uRead _ => 5 | .uSet _ _ => 6
+  | .uUnlock _ => 7 | .uUnlockErr => 8 | .mkWatcher => 9 | .closeReady => 10 | .loop => 11 | .exiting _ => 12
+  | .done _ => 13
+
+def ConsPc.code : ConsPc → Nat
+  | .bCall _ => 1 | .bPassed => 2 | .bHold => 3 | .bUnlock _ => 4 | .bDone _ => 5
+  | .sCall => 6 | .sPend => 7 | .sHeld => 8 | .sDone => 9
+
+/-- Cheap fingerprint used only to make the "already seen" test fast (64 buckets); it has no bearing
+on soundness. -/
+def fingerprint (s : St) : Nat :=
+  s.cons.foldl (fun h c => (h * 10 + c.code) % 4093) (s.run.code + 23 * s.readers)
+
+abbrev Seen := List (List St)
+
+def Seen.empty : Seen := List.replicate 64 []
+
+def Seen.contains (seen : Seen) (t : St) : Bool := (seen.getD (fingerprint t % 64) []).contains t
+
+def Seen.insert (seen : Seen) (t : St) : Seen :=
+  let k := fingerprint t % 64
+  seen.set k (t :: seen.getD k [])
+
+def closure : Nat → Seen → List St → List St → List St
+  | 0, _, acc, _ => acc
+  | _, _, acc, [] => acc
+  | n + 1, seen, acc, s :: todo =>
+    let new := (tauSucc s).filter fun t => !(seen.contains t)
     let new := new.foldl insertNew []
-    closure n (acc ++ new) (todo ++ new)
+    closure n (new.foldl Seen.insert seen) (new ++ acc) (new ++ todo)
 
 def close (ss : List St) : List St :=
   let init := ss.foldl insertNew []
-  closure 100000 init init
+  closure 100000 (init.foldl Seen.insert Seen.empty) init init
 
 def isBundleCall : ConsPc → Bool
   | .bCall _ | .bPassed | .bHold | .bUnlock _ => true
